@@ -296,3 +296,25 @@ def _run_shard(tier, shard, res: Result):
         run_replies(shard, res, tier)
     else:
         run_connect(shard, res)
+
+
+def replay(witness, res: Result):
+    from ..core import unjson_bytes
+    install_block_contract()
+    op = witness["op"]
+    if op == "connect":
+        print("replay of connect cases: re-run the check; witness:", witness)
+        return
+    stream = unjson_bytes(witness["stream"])
+    kind, p = witness["segmentation"]
+    p = eval(p, {"__builtins__": {}})  # a tuple/int written by repr()
+    args = {"getscript": ("x",), "listscripts": (), "capability": (), "putscript": ("x", "keep;"),
+            "checkscript": ("keep;",), "deletescript": ("x",), "renamescript": ("x", "y"),
+            "setactive": ("x",), "havespace": ("x", 5)}[op]
+    base = execute(op, args, stream, ms.Seg())
+    got = execute(op, args, stream, mkseg(kind, p))
+    print("whole    :", base[0])
+    print("segmented:", got[0])
+    if got[0] != base[0]:
+        res.violation({"op": op, "differs": _what(got[0], base[0]), "cut": "replay"},
+                      {"op": op, "stream": stream, "segmentation": [kind, repr(p)]})
